@@ -1,6 +1,7 @@
 import RsddModel.Driver.SerLines
 import RsddModel.Driver.WmcStream
 import RsddModel.Model.Ffi
+import RsddModel.Model.BddCompile
 /-!
 # Driver: the `ffi` stream (C18)
 
@@ -51,7 +52,45 @@ def toCall : Bdd.Op → Option Ffi.Call
 def showPolyRat (p : Sem.Poly Rat) : String :=
   s!"{p.len}:{";".intercalate ((p.coeffs.take p.len).map showRat)}"
 
+/-- `kind=cnf` lines: the CNF / order / dtree / vtree / SDD / decision-DNNF part of the C
+interface.  Specification: every observable obtained through the C symbols equals the one the
+native API gives for the same arguments, and the compiled diagrams denote the clauses as
+written (so an argument lost or altered while crossing the boundary shows even if both sides
+agree).  Model: the mirrored bottom-up compiler on the same clauses and order. -/
+def checkFfiCnfLine (kvs : List (String × String)) (rhs : String) : String := Id.run do
+  let some n := (lookup kvs "n").bind parseNat? | return "FAIL PARSE n"
+  let some raw := (lookup kvs "raw").bind parseCnf | return "FAIL PARSE raw"
+  let some order := (lookup kvs "order").bind parseNatList | return "FAIL PARSE order"
+  if rhs.startsWith "panic:" then return s!"FAIL SPEC a C call sequence panicked: {rhs}"
+  let okv := splitKV rhs
+  let g (k : String) : String := (lookup okv k).getD "<missing>"
+  for (c, nn, what) in [("ccnf", "ncnf", "cnf_new / cnf_from_dimacs"), ("cmf", "nmf", "cnf_min_fill_order"),
+      ("cb", "nb", "robdd_builder_compile_cnf"), ("cpr", "npr", "print_bdd"),
+      ("cd", "nd", "ddnnf_builder_compile_cnf_topdown"), ("csw", "nsw", "sdd_builder_compile_cnf / sdd_wmc")] do
+    if g c != g nn then return s!"FAIL SPEC {what}: through C {g c}, native {g nn}"
+  let cnfTT := ttString n (cnfFn raw)
+  let some (cb, []) := parsePlainAux (g "cb").toList | return "FAIL PARSE cb"
+  if ttString n cb.eval != cnfTT then
+    return s!"FAIL SPEC the BDD compiled through C denotes {ttString n cb.eval}, the clauses passed to cnf_new denote {cnfTT}"
+  let some (cd, []) := parsePlainAux (g "cd").toList | return "FAIL PARSE cd"
+  if ttString n cd.eval != cnfTT then
+    return s!"FAIL SPEC the decision-DNNF compiled through C denotes {ttString n cd.eval}, the clauses {cnfTT}"
+  let models := (cnfTT.toList.filter (· == '1')).length
+  if g "cmc" != toString (models % Constants.u64largest) then
+    return s!"FAIL SPEC robdd_model_count = {g "cmc"}, the clauses have {models} models over {n} variables"
+  if g "csw" != "skipped" && g "csw" != "null" then
+    let ks := ((lookup kvs "w").getD "").splitOn "," |>.filterMap String.toNat?
+    let w : Weights Rat := fun v => let k : Rat := mkRat (ks.getD v 0) 8; (1 - k, k)
+    let want := wsum Sem.realOps (List.range n) w (cnfFn raw) (fun _ => false)
+    if g "csw" != showRat want then return s!"FAIL SPEC sdd_wmc through C = {g "csw"}, weighted sum over models {showRat want}"
+  -- mirrored compiler
+  match Bdd.runCompileCnf order (Compile.cnfNew raw) with
+  | none => return "FAIL MODEL the compiler model rejects the CNF"
+  | some m => if expand m false != g "cb" then return s!"FAIL MODEL compile_cnf: model {expand m false} through C {g "cb"}"
+  return s!"ok nontrivial={if isNontrivial cb then 1 else 0}"
+
 def checkFfiLine (kvs : List (String × String)) (rhs : String) : String := Id.run do
+  if lookup kvs "kind" == some "cnf" then return checkFfiCnfLine kvs rhs
   let some n := (lookup kvs "n").bind parseNat? | return "FAIL PARSE n"
   let some opsS := lookup kvs "ops" | return "FAIL PARSE ops"
   let some ops := (opsS.splitOn "|").mapM parseOp | return "FAIL PARSE op"
